@@ -75,44 +75,58 @@ def customRegisters (vals : AMap WireValue) (banks : List RegisterBank) : String
   let rest := restLetters.filterMap fun c => (byLetter.find? (fun p => p.1 == c)).map (·.2)
   String.join ((first ++ rest).map (bank vals))
 
+/-- what the memory walk prints: a row label, or one of the sixteen cells of a row (with the group separators and the
+    end of the row that follow it) -/
+inductive MTok where
+  | label (row : Nat)
+  | cell (col : Nat) (b : Option Nat)
+  deriving Repr, DecidableEq
+
+def MTok.text : MTok → String
+  | .label r => "|  0x" ++ toHexPad 7 r ++ "_:  "
+  | .cell i b =>
+    (match b with | some v => " " ++ toHexPad 2 v | none => "   ") ++
+    (if i == 3 || i == 11 then " " else if i == 7 then "  " else "") ++
+    (if i == 15 then "    |\n" else "")
+
 structure Walk where
   cur : Nat
-  text : String
+  toks : List MTok
   stop : Bool := false
 
 /-- one iteration of `while cur_addr <= k` -/
 def walkStep (k v : Nat) (w : Walk) : Walk :=
-  let (cur, text) := if w.cur % 16 == 0 then
+  let (cur, toks) := if w.cur % 16 == 0 then
       let c := (k / 16) * 16
-      (c, w.text ++ "|  0x" ++ toHexPad 7 (c / 16) ++ "_:  ")
-    else (w.cur, w.text)
-  let text := if cur == k then text ++ " " ++ toHexPad 2 v else text ++ "   "
-  let text := if cur % 16 == 3 || cur % 16 == 11 then text ++ " " else if cur % 16 == 7 then text ++ "  " else text
-  let text := if cur % 16 == 15 then text ++ "    |\n" else text
+      (c, w.toks ++ [MTok.label (c / 16)])
+    else (w.cur, w.toks)
+  let toks := toks ++ [MTok.cell (cur % 16) (if cur == k then some v else none)]
   let next := (cur + 1) % U64
-  ⟨next, text, next == 0⟩
+  ⟨next, toks, next == 0⟩
 
 def walkKey (k v : Nat) : Nat → Walk → Walk
   | 0, w => w
   | fuel+1, w => if !w.stop && w.cur ≤ k then walkKey k v fuel (walkStep k v w) else w
 
+/-- the `while cur_addr % 16 != 0` loop that completes the last row -/
 def padRow : Nat → Walk → Walk
   | 0, w => w
   | fuel+1, w =>
-    if w.cur % 16 != 0 then
-      let t := if w.cur % 16 == 15 then "       |\n" else if w.cur % 16 == 3 || w.cur % 16 == 11 then "    "
-        else if w.cur % 16 == 7 then "     " else "   "
-      padRow fuel ⟨(w.cur + 1) % U64, w.text ++ t, false⟩
+    if w.cur % 16 != 0 then padRow fuel ⟨(w.cur + 1) % U64, w.toks ++ [MTok.cell (w.cur % 16) none], false⟩
     else w
 
-/-- `dump_memory_y86` -/
-def memory (m : Mem) : String :=
-  let header := "| used memory:   _0 _1 _2 _3  _4 _5 _6 _7   _8 _9 _a _b  _c _d _e _f    |\n"
+def memHeader : String := "| used memory:   _0 _1 _2 _3  _4 _5 _6 _7   _8 _9 _a _b  _c _d _e _f    |\n"
+
+/-- the tokens of `dump_memory_y86` after the header line -/
+def memToks (m : Mem) : List MTok :=
   match m with
-  | [] => header
+  | [] => []
   | (k0, _) :: _ =>
-    let w := m.foldl (fun w (p : Nat × Nat) => walkKey p.1 p.2 34 { w with stop := false }) ⟨(k0 / 16) * 16, header, false⟩
-    (padRow 17 w).text
+    let w := m.foldl (fun w (p : Nat × Nat) => walkKey p.1 p.2 34 { w with stop := false }) ⟨(k0 / 16) * 16, [], false⟩
+    (padRow 17 w).toks
+
+/-- `dump_memory_y86` -/
+def memory (m : Mem) : String := memHeader ++ String.join ((memToks m).map MTok.text)
 
 /-- `name_status_y86` -/
 def statusName (st : Nat) : String :=
